@@ -32,7 +32,7 @@ def jsonable(obj, depth=0):
     if isinstance(obj, (set, frozenset)):
         return sorted((jsonable(x, depth + 1) for x in obj), key=repr)
     if isinstance(obj, dict):
-        return {str(k): jsonable(v, depth + 1) for k, v in obj.items()}
+        return {str(k): jsonable(v, depth + 1) for k, v in obj.items() if not str(k).startswith('_rng')}
     return repr(obj)[:400]
 
 
